@@ -104,4 +104,16 @@ theorem layout_prog {p : Prog Tok} (h : p.wf = true) (hpos : PosSorted p.flat) :
       f hf t (heq ▸ ht)
     rw [this] at hopen; cases hopen
 
+/-- **the token sequence of a STRUCTURALLY well-formed forest satisfies every layout clause that
+is a fact about well-formed files** (`LayoutCore`: everything except `no_adjacent`), with the
+functions `fnsOf` and the blocks `blocksOf` of the tree; the canonical-fragment restriction
+`noAdj` is not needed -/
+theorem layoutCore_prog {p : Prog Tok} (h : p.wfCore = true) (hpos : PosSorted p.flat) :
+    LayoutCore p.flat p.fns p.blocks := by
+  have hb := getBlocks_prog_core h hpos
+  obtain ⟨h1, h2⟩ := getBlocks_spec_L hb
+  obtain ⟨h3, h4⟩ := h2 hpos
+  refine ⟨(tinv_of_wfCore p 0 h).fnLayout, hpos, fun b hb' => ?_, h3, h4.imp (fun h => by omega)⟩
+  have := h1 b hb'; omega
+
 end CL
